@@ -135,9 +135,9 @@ def ivec(rng, n, lo=-2, hi=3):
 
 class Prop:
     ID = "C12"
-    LEVEL = "exploration"
-    COQ_HEADER = ""
-    CHECK_FN = ""
+    LEVEL = "proof"
+    COQ_HEADER = "From TN Require Import Harness.H_C12.\nOpen Scope Z_scope.\n"
+    CHECK_FN = "check"
     RULE = ("per routine: the format ({TT,CP}x{U,no U}) of the affected mode enumerated at first/middle/last position with "
             "random formats elsewhere, then seeded tensors with 1..4 modes, sizes 1..3(4), ranks 1..3 (above the mode size "
             "included), zero tensors; every mode argument incl. negative, int/list/None forms; cat/reduce with 1..5 operands of "
@@ -153,7 +153,7 @@ class Prop:
                    "DESIGN.md C12)",
                    "reduce is judged with eps=0 and tolerance 1e-6",
                    "random creation routines are judged on shape, core kinds, TT/CP/Tucker ranks only (not on the distribution)"]
-    THEOREMS = []
+    THEOREMS = ["C12_ttm", "C12_flip", "C12_cumsum", "C12_repeat", "C12_pad_embed", "C12_cat", "C12_select", "C12_transpose", "C12_full", "C12_eye"]
 
     # ------------------------------------------------------------------ generation
     def generate(self, rng, tier):
@@ -644,4 +644,63 @@ class Prop:
                         [json.dumps([np.array(U).shape for U in case["U"]]) if "U" in case else ""])
 
     def coq_term(self, case, res):
+        """model (Coq) versus implementation for the routines modelled in Model/Tools.v, Model/Create.v"""
+        if not res.get("ok") or not res.get("outs"):
+            return None
+        op = case["op"]
+        ts = case.get("ts", [])
+        def tail(out):
+            d = canon_dense(out["dense"])
+            if d is None:
+                d = [10 ** 9]
+            return "%s %s" % (coq_natlist(out["shape"]), coq_list(d))
+        def allint(x):
+            return all(float(v).is_integer() for v in flat(x))
+        out0 = res["outs"][0]
+        N = len(ts[0]["modes"]) if ts else None
+        if op == "flip":
+            return "mkCase (OFlip %s %s) %s" % (coq_tensor(ts[0]), coq_natlist([d % N for d in aslist(case["dim"], N)]), tail(out0))
+        if op == "cumsum":
+            return "mkCase (OCumsum %s %s) %s" % (coq_tensor(ts[0]), coq_natlist([d % N for d in aslist(case["dim"], N)]), tail(out0))
+        if op == "repeat":
+            if len(case["rep"]) != N:
+                return None        # trailing new modes: implementation-vs-specification only
+            return "mkCase (ORepeat %s %s) %s" % (coq_tensor(ts[0]), coq_natlist(case["rep"]), tail(out0))
+        if op == "pad":
+            if case["fill"] != 0:
+                return None
+            dims = [d % N for d in aslist(case["dim"], N)]
+            sh = case["shape"] if isinstance(case["shape"], list) else [case["shape"]] * len(dims)
+            ds = "[" + "; ".join("(%d%%nat, %d%%nat)" % (d, n) for d, n in zip(dims, sh)) + "]"
+            return "mkCase (OPad0 %s %s) %s" % (coq_tensor(ts[0]), ds, tail(out0))
+        if op == "ttm":
+            Us = case["U"]
+            dims = list(range(len(Us))) if case["dim"] is None else [d % N for d in aslist(case["dim"], N)]
+            fs = []
+            for U, d in zip(Us, dims):
+                M = np.array(U, dtype=np.float64)
+                if M.ndim == 1:
+                    M = M[None, :]
+                elif case["transpose"]:
+                    M = M.T
+                if not allint(M):
+                    return None
+                fs.append("(%d%%nat, %d%%nat, %s)" % (d, M.shape[0], coq_list(flat(M))))
+            if len(set(dims)) != len(dims):
+                return None
+            return "mkCase (OTtm %s [%s]) %s" % (coq_tensor(ts[0]), "; ".join(fs), tail(out0))
+        if op == "cat":
+            return "mkCase (OCat %d [%s]) %s" % (case["dim"] % N, "; ".join(coq_tensor(t) for t in ts), tail(out0))
+        if op == "mask":
+            return "mkCase (OMask %s %s) %s" % (coq_tensor(ts[0]), coq_tensor(ts[1]), tail(out0))
+        if op == "transpose":
+            return "mkCase (OTranspose %s) %s" % (coq_tensor(ts[0]), tail(out0))
+        if op == "unbind":
+            k = case["dim"] % N
+            i = 0
+            return "mkCase (OUnbind %s %d %d) %s" % (coq_tensor(ts[0]), k, i, tail(res["outs"][0]))
+        if op == "full" and float(case["fill"]).is_integer() and len(case["shape"]) >= 1:
+            return "mkCase (OFull %s %s) %s" % (zlit(case["fill"]), coq_natlist(case["shape"]), tail(out0))
+        if op == "eye":
+            return "mkCase (OEye %d %d) %s" % (case["n"], case["m"] if case.get("m") is not None else case["n"], tail(out0))
         return None
